@@ -19,6 +19,11 @@ subprocess.check_call(["git", "-C", wt, "checkout", "-q", "--", "."])
 subprocess.call(["git", "-C", wt, "clean", "-fdq", "tests/"])
 meta = json.load(open(os.path.join(d, "meta.json")))
 demo = "demo_seed"
+# a demonstration may need a non-default cargo feature (taken from the seed's own demo command)
+feat = []
+w = str(meta.get("demo_cmd", "")).split()
+if "--features" in w and w.index("--features") + 1 < len(w):
+    feat = ["--features", w[w.index("--features") + 1]]
 env = dict(os.environ, CARGO_NET_OFFLINE="true")
 
 
@@ -33,12 +38,12 @@ def sh(cmd, timeout=3600):
 
 res = {"repo_head": head, "seed": d}
 subprocess.check_call(["cp", os.path.join(d, "demo.rs"), os.path.join(wt, "tests", demo + ".rs")])
-rc, out, t = sh(["cargo", "test", "--offline", "--test", demo], 1800)
+rc, out, t = sh(["cargo", "test", "--offline"] + feat + ["--test", demo], 1800)
 res["demo_passes_without_change"] = rc == 0
 r = subprocess.run(["git", "-C", wt, "apply", os.path.join(d, "patch.diff")])
 res["patch_applies"] = r.returncode == 0
 if r.returncode == 0:
-    rc, out, t = sh(["cargo", "test", "--offline", "--test", demo], 1800)
+    rc, out, t = sh(["cargo", "test", "--offline"] + feat + ["--test", demo], 1800)
     res["demo_fails_with_change"] = rc != 0
     res["demo_tail"] = out[-600:]
     os.remove(os.path.join(wt, "tests", demo + ".rs"))
